@@ -2,7 +2,7 @@
 from vlib.runner import Job, Report
 
 H = 'harness.c19_di'
-NOPS = 44  # checked against the harness at run time (see evidence: ops)
+NOPS = 48  # checked against the harness at run time (see evidence: ops)
 
 
 def run(rep: Report, tier: str, only=None) -> None:
